@@ -43,8 +43,27 @@ def rand_pipeline(rng, pid):
     return {"pid": pid, "prio": rng.choice(gen.PRIOS), "ops": ops}
 
 
+def big_file_case(rng, npipes):
+    arrivals = {}
+    for j in range(npipes):
+        t = j // 3
+        n = rng.choice([1, 2, 3]) if rng.random() < 0.97 else rng.choice([40, 80])
+        if n >= 40:
+            # wide fan-in: one sink with dozens of parents
+            ops = [{"parents": [], "segs": [{"cpu": 1, "law": "const", "mem": None, "read": 1}]} for _ in range(n - 1)]
+            ops.append({"parents": list(range(n - 1)), "segs": [{"cpu": 2, "law": "sqrt", "mem": 0, "read": 0.5}]})
+            sp = {"pid": "wide-" + "x" * rng.choice([1, 60]) + str(j), "prio": "BATCH_PIPELINE", "ops": ops}
+        else:
+            sp = rand_pipeline(rng, f"big{j}")
+        arrivals.setdefault(str(t), []).append(sp)
+    return {"kind": "roundtrip", "tps": rng.choice([1, 10, 1000]), "arrivals": arrivals, "ticks": npipes // 3 + 3,
+            "malform": [(rng.choice(MALFORM_KINDS), rng.random()) for _ in range(3)], "_big": True}
+
+
 def cases(tier, seed, shard, nshards):
     rng = rng_for(ID, seed, shard)
+    if tier == "thorough" or shard < 3:
+        yield big_file_case(rng, 5000 if tier == "quick" else 20000)
     for i in range(N[tier]):
         tps = rng.choice([1, 2, 10, 100, 1000])
         arrivals = {}
